@@ -26,7 +26,7 @@ pub fn property() -> Property {
             "tokio paused clock with auto-advance; is_closed sampled every 100 ms of virtual time",
             "the client maps -I/-T to the monitor unchanged (client.rs), checked separately in the Lab-S glue family when built",
         ],
-        families: vec![(Box::new(BeatFam), 1_500, 40_000)],
+        families: vec![(Box::new(BeatFam), 8_000, 64_000)],
     }
 }
 
